@@ -23,7 +23,7 @@ for e in exp:
         outs = []
         ok = True
         for prop in e['property'] if isinstance(e['property'], list) else [e['property']]:
-            r = sh(f'cd {V} && ./check {prop} quick')
+            r = sh(f'cd {V} && VERIF_EVIDENCE_DIR={V}/out/selftest-evidence ./check {prop} quick')  # never overwrite the committed evidence with a mutant run
             outs.append(r.stdout)
             viol = [l for l in r.stdout.splitlines() if l.startswith('VIOLATION')]
             failed = [l for l in r.stdout.splitlines() if 'failed obligation' in l]
